@@ -17,7 +17,7 @@ PROP = 'C13'
 RULE = ('every public indicator with a `sequential` argument x (default + non-default parameter sets drawn from the signature: '
         'periods 2..60, every source type, matype/devtype where present) x series {walk, trend, flat-with-step, spikes, alternating} '
         'x prefix lengths {~n/3.., n/2, n-1, n-order}; plus a repeatability probe (same call twice with the heap perturbed in '
-        'between). distinct = distinct (indicator, parameter set, series kind, prefix); non-trivial = both calls returned and the '
+        'between); every call gets a private copy of the series, which must come back unmodified. distinct = distinct (indicator, parameter set, series kind, prefix); non-trivial = both calls returned and the '
         'prefix has at least one finite value.')
 ASSUMPTIONS = ['relative tolerance 1e-9, absolute 1e-12 x output scale, NaN == NaN', 'a prefix on which the function raises while '
                'the full series works is skipped and counted', 'the extrema detector (minmax) is exempt in its last `order` positions']
@@ -55,8 +55,18 @@ def run_job(job):
                 n = job['n']
                 X = indlib.series(kind, n, rng.randrange(1 << 30))
                 X2 = indlib.series('walk', n, rng.randrange(1 << 30))
+                Xa, X2a = X.copy(), X2.copy()
                 try:
-                    full = indlib.fields(indlib.call(name, f, sig, X, kw, True, X2))
+                    full = indlib.fields(indlib.call(name, f, sig, Xa, kw, True, X2a))
+                    full = {k_: (np.array(v_, copy=True) if isinstance(v_, np.ndarray) else v_) for k_, v_ in full.items()}
+                    cnt['input_unmodified_checks'] = cnt.get('input_unmodified_checks', 0) + 1
+                    if not (np.array_equal(Xa, X, equal_nan=True) and np.array_equal(X2a, X2, equal_nan=True)):
+                        # the differential below would compare against an input the indicator itself has rewritten
+                        k_ = f'input_modified:{name}'
+                        if k_ not in seen_keys:
+                            seen_keys.add(k_)
+                            viol.append({'key': k_, 'msg': f'{name}({kw}) wrote into the candle array it was given',
+                                         'witness': {'indicator': name, 'params': kw, 'series': kind, 'n': n}})
                 except Exception as ex:
                     cnt['full_series_raises'] = cnt.get('full_series_raises', 0) + 1
                     if pi == 0 and kind == 'walk':
